@@ -91,6 +91,11 @@ def gen_pipeline(scratch, gen_dir):
     out.append("/-- passes that return immediately when an earlier pass has reported errors -/")
     out.append("def passesSkippedAfterErrors : List String := [" + ", ".join(f'"{p}"' for p in sorted(passes.get("earlyReturn", []))) + "]")
     out.append("")
+    vis = facts(scratch, "visitor")
+    out.append("/-- every field of a dsl node struct that can hold child nodes: (struct, field, is it walked by VisitChildren) -/")
+    out.append("def visitorFields : List (String × String × Bool) := [")
+    out.append(",\n".join(f'  ("{r["struct"]}", "{r["field"]}", {"true" if r["visited"] and r["hasCase"] else "false"})' for r in vis) + "]")
+    out.append("")
     out.append("end Yardl.Generated")
     with open(os.path.join(gen_dir, "Pipeline.lean"), "w") as f:
         f.write("\n".join(out) + "\n")
